@@ -336,6 +336,7 @@ def main(argv=None):
             "cross_validated_paths": xcheck,
             "validation_cases": nvalid,
             "known_findings_active": active,
+            "slowest_tasks": sorted([(round(r.get("wall_s", 0), 1), r["task"], r.get("stats", {}).get("paths", 0), r.get("stats", {}).get("queries", 0)) for r in results], reverse=True)[:5],
             "inconclusive": problems[:10],
             "exhaustive": False,
         },
